@@ -82,6 +82,59 @@ structure JobRec where
   dispatched : Bool := false     -- ghost: has been sent on readyc
   deriving DecidableEq, Repr, Inhabited
 
+
+namespace JobRec
+def addConsumer (r : JobRec) (k : Nat) : JobRec := { r with consumers := r.consumers ++ [k] }
+def incRem (r : JobRec) : JobRec := { r with remaining := r.remaining + 1 }
+def decRem (r : JobRec) : JobRec := { r with remaining := r.remaining - 1 }
+def setInvalid (r : JobRec) : JobRec := { r with invalid := true }
+def setDone (r : JobRec) : JobRec := { r with done := true }
+def setFailed (r : JobRec) : JobRec := { r with failed := true }
+def setDispatched (r : JobRec) : JobRec := { r with dispatched := true }
+@[simp] theorem addConsumer_remaining (r : JobRec) (k : Nat) : (r.addConsumer k).remaining = r.remaining := rfl
+@[simp] theorem addConsumer_consumers (r : JobRec) (k : Nat) : (r.addConsumer k).consumers = r.consumers ++ [k] := rfl
+@[simp] theorem addConsumer_done (r : JobRec) (k : Nat) : (r.addConsumer k).done = r.done := rfl
+@[simp] theorem addConsumer_failed (r : JobRec) (k : Nat) : (r.addConsumer k).failed = r.failed := rfl
+@[simp] theorem addConsumer_invalid (r : JobRec) (k : Nat) : (r.addConsumer k).invalid = r.invalid := rfl
+@[simp] theorem addConsumer_dispatched (r : JobRec) (k : Nat) : (r.addConsumer k).dispatched = r.dispatched := rfl
+@[simp] theorem incRem_remaining (r : JobRec) : (r.incRem).remaining = r.remaining + 1 := rfl
+@[simp] theorem incRem_consumers (r : JobRec) : (r.incRem).consumers = r.consumers := rfl
+@[simp] theorem incRem_done (r : JobRec) : (r.incRem).done = r.done := rfl
+@[simp] theorem incRem_failed (r : JobRec) : (r.incRem).failed = r.failed := rfl
+@[simp] theorem incRem_invalid (r : JobRec) : (r.incRem).invalid = r.invalid := rfl
+@[simp] theorem incRem_dispatched (r : JobRec) : (r.incRem).dispatched = r.dispatched := rfl
+@[simp] theorem decRem_remaining (r : JobRec) : (r.decRem).remaining = r.remaining - 1 := rfl
+@[simp] theorem decRem_consumers (r : JobRec) : (r.decRem).consumers = r.consumers := rfl
+@[simp] theorem decRem_done (r : JobRec) : (r.decRem).done = r.done := rfl
+@[simp] theorem decRem_failed (r : JobRec) : (r.decRem).failed = r.failed := rfl
+@[simp] theorem decRem_invalid (r : JobRec) : (r.decRem).invalid = r.invalid := rfl
+@[simp] theorem decRem_dispatched (r : JobRec) : (r.decRem).dispatched = r.dispatched := rfl
+@[simp] theorem setInvalid_remaining (r : JobRec) : (r.setInvalid).remaining = r.remaining := rfl
+@[simp] theorem setInvalid_consumers (r : JobRec) : (r.setInvalid).consumers = r.consumers := rfl
+@[simp] theorem setInvalid_done (r : JobRec) : (r.setInvalid).done = r.done := rfl
+@[simp] theorem setInvalid_failed (r : JobRec) : (r.setInvalid).failed = r.failed := rfl
+@[simp] theorem setInvalid_invalid (r : JobRec) : (r.setInvalid).invalid = true := rfl
+@[simp] theorem setInvalid_dispatched (r : JobRec) : (r.setInvalid).dispatched = r.dispatched := rfl
+@[simp] theorem setDone_remaining (r : JobRec) : (r.setDone).remaining = r.remaining := rfl
+@[simp] theorem setDone_consumers (r : JobRec) : (r.setDone).consumers = r.consumers := rfl
+@[simp] theorem setDone_done (r : JobRec) : (r.setDone).done = true := rfl
+@[simp] theorem setDone_failed (r : JobRec) : (r.setDone).failed = r.failed := rfl
+@[simp] theorem setDone_invalid (r : JobRec) : (r.setDone).invalid = r.invalid := rfl
+@[simp] theorem setDone_dispatched (r : JobRec) : (r.setDone).dispatched = r.dispatched := rfl
+@[simp] theorem setFailed_remaining (r : JobRec) : (r.setFailed).remaining = r.remaining := rfl
+@[simp] theorem setFailed_consumers (r : JobRec) : (r.setFailed).consumers = r.consumers := rfl
+@[simp] theorem setFailed_done (r : JobRec) : (r.setFailed).done = r.done := rfl
+@[simp] theorem setFailed_failed (r : JobRec) : (r.setFailed).failed = true := rfl
+@[simp] theorem setFailed_invalid (r : JobRec) : (r.setFailed).invalid = r.invalid := rfl
+@[simp] theorem setFailed_dispatched (r : JobRec) : (r.setFailed).dispatched = r.dispatched := rfl
+@[simp] theorem setDispatched_remaining (r : JobRec) : (r.setDispatched).remaining = r.remaining := rfl
+@[simp] theorem setDispatched_consumers (r : JobRec) : (r.setDispatched).consumers = r.consumers := rfl
+@[simp] theorem setDispatched_done (r : JobRec) : (r.setDispatched).done = r.done := rfl
+@[simp] theorem setDispatched_failed (r : JobRec) : (r.setDispatched).failed = r.failed := rfl
+@[simp] theorem setDispatched_invalid (r : JobRec) : (r.setDispatched).invalid = r.invalid := rfl
+@[simp] theorem setDispatched_dispatched (r : JobRec) : (r.setDispatched).dispatched = true := rfl
+end JobRec
+
 inductive Phase where
   | select | draining | exited
   deriving DecidableEq, Repr, Inhabited
@@ -108,7 +161,9 @@ structure LoopSt where
 
 namespace Loop
 
-def job (l : LoopSt) (j : Nat) : JobRec := l.jobs.getD j {}
+def getJob (jobs : List JobRec) (j : Nat) : JobRec := jobs.getD j {}
+
+def job (l : LoopSt) (j : Nat) : JobRec := getJob l.jobs j
 
 def setJob (l : LoopSt) (j : Nat) (r : JobRec) : LoopSt := { l with jobs := l.jobs.set j r }
 
@@ -122,12 +177,11 @@ def regDeps (w : Wiring) (jobs : List JobRec) (meId : Nat) (me : JobRec) :
     List Nat → List JobRec × JobRec
   | [] => (jobs, me)
   | d :: ds =>
-    let dr := jobs.getD d {}
+    let dr := getJob jobs d
     if dr.done && w.lateEnqueueChecksDone then
-      regDeps w jobs meId (if dr.failed then { me with invalid := true } else me) ds
+      regDeps w jobs meId (if dr.failed then me.setInvalid else me) ds
     else
-      regDeps w (jobs.set d { dr with consumers := dr.consumers ++ [meId] }) meId
-        { me with remaining := me.remaining + 1 } ds
+      regDeps w (jobs.set d (dr.addConsumer meId)) meId me.incRem ds
 
 /-- enqueue arm, `ok = true`: register job `j` (the next in FIFO order). -/
 def enq (c : Cfg) (l : LoopSt) (j : Nat) : LoopSt :=
@@ -146,21 +200,19 @@ def dispatch (c : Cfg) (l : LoopSt) : Option (Nat × LoopSt) :=
   | j :: rest =>
     if c.wiring.gateDispatch && !(l.ongoing < c.N) then none
     else
-      let jr := job l j
-      some (j, { setJob l j { jr with dispatched := true } with
+      some (j, { setJob l j (job l j).setDispatched with
                   ready := rest, ongoing := l.ongoing + 1 })
 
 /-- `for _, consumer := range job.consumers { consumer.invalid = true }` -/
 def markInvalid (l : LoopSt) : List Nat → LoopSt
   | [] => l
-  | k :: ks => markInvalid (setJob l k { job l k with invalid := true }) ks
+  | k :: ks => markInvalid (setJob l k (job l k).setInvalid) ks
 
 /-- `for _, consumer := range job.consumers { consumer.remaining--; … }` -/
 def notify (l : LoopSt) : List Nat → LoopSt
   | [] => l
   | k :: ks =>
-    let kr := job l k
-    let kr' := { kr with remaining := kr.remaining - 1 }
+    let kr' := (job l k).decRem
     let l := setJob l k kr'
     let l := if kr'.remaining == 0
              then { l with waiting := l.waiting - 1, ready := l.ready ++ [k] } else l
@@ -169,10 +221,10 @@ def notify (l : LoopSt) : List Nat → LoopSt
 /-- result arm for `res = {Job: j, Err: r}`. -/
 def result (c : Cfg) (l : LoopSt) (j : Nat) (r : Res) : LoopSt :=
   let jr := job l j
-  let l := setJob l j { jr with done := true }
+  let l := setJob l j jr.setDone
   let l := { l with pending := l.pending - 1, ongoing := l.ongoing - 1 }
   if r.isErr then
-    let l := setJob l j { job l j with failed := true }
+    let l := setJob l j (job l j).setFailed
     if !c.coe then
       -- `s.err = err; return`
       { l with err := [r], phase := .draining }
